@@ -14,6 +14,8 @@ structure St where
   pl : Int := 0
   pls : List Int := []
   base : Int := 0
+  /-- the state the implementation printed after the previous operation -/
+  prev : String := ""
 
 def parseLevel : String → Level
   | "I" => .initial | "H" => .handshake | "Z" => .zeroRTT | "A" => .oneRTT | _ => .invalid
@@ -100,6 +102,14 @@ def stateInt (stateTxt key : String) : Int :=
   | some v => intOf ((v.splitOn ",").headD "0")
   | none => 0
 
+/-- the `lossTime` of every live packet number space in a printed state is 0 (`false` if there is no state) -/
+def lossTimesZero (stateTxt : String) : Bool :=
+  !stateTxt.isEmpty && ["I=", "H=", "A="].all fun k =>
+    match field stateTxt k with
+    | none => false
+    | some "-" => true
+    | some v => (v.splitOn ",").any (· = "lt0")
+
 def peekU (st : St) (lvl : Level) (pn : Int) (dflt : Int) : Int :=
   if st.u ∧ lvl = .initial ∧ !st.pls.isEmpty then
     let idx := pn - st.base
@@ -137,7 +147,7 @@ def step (st : St) (op impl : String) : St × StepOut :=
     let fails := if gImpl.broken then [] else fails ++ gImpl.checkState implBif implAlarm
     let tags := tags ++ (if st'.s.alarm.typ ≠ st.s.alarm.typ ∨ st'.s.alarm.level ≠ st.s.alarm.level then
       [s!"alarm:{match st'.s.alarm.typ with | .none => "none" | .ack => "ack" | .pto => "pto" | .pathProbe => "pp"}{fmtLevel st'.s.alarm.level}"] else [])
-    ({ st' with g := gImpl },
+    ({ st' with g := gImpl, prev := stateTxt },
      { model := s!"{res} | {envTxt} | {fmtState st'.s}", tags := tags, fails := fails })
   match w with
   | "init" :: rest =>
@@ -203,6 +213,7 @@ def step (st : St) (op impl : String) : St × StepOut :=
       | none => []
       else []
     -- loss detection ran (something was visibly acknowledged): overdue packets must be resolved now
+    let g := if lvl ≠ .initial then { g with completed := true } else g
     let newlyAcked := implOk ∧ evs.any (·.startsWith "a")
     let g := if newlyAcked then { g with largestAcked := g.largestAcked.set sp (max (g.largestAcked.getD sp (-1)) largest) } else g
     let f5 : List Fail := if newlyAcked then g.overdueNotLost sp (intOf now) (lossDelayOf e.env) else []
@@ -225,10 +236,14 @@ def step (st : St) (op impl : String) : St × StepOut :=
       | some "-" => g
       | some v => { g with skipped := g.skipped ++ (v.splitOn ";").map intOf }
       | none => g
+    -- the anti-deadlock probe: judged on the ghost as it was when the timer fired
+    let adArmed := st.g.antiDeadlockState && lossTimesZero st.prev
+    let f2 := st.g.antiDeadlockProbe (lossTimesZero st.prev) resTxt (stateInt stateTxt "np=") (stateInt stateTxt "pm=") implBif
     let tags := [if s'.ptoCount > st.s.ptoCount then s!"timeout:pto{s'.ptoMode}" else if !out.evs.isEmpty then "timeout:loss" else "timeout:noop"] ++
+      (if adArmed then [if implBif > 0 then "timeout:antideadlock:inflight" else "timeout:antideadlock"] else []) ++
       (if out.skipped.length > 1 then ["timeout:doubleskip"] else []) ++
       (if s'.app.hist.skipped.length = maxSkippedPackets ∧ g.skipped.length > maxSkippedPackets then ["timeout:skipevict"] else [])
-    fin { st with s := s', g := g } res tags (f1 ++ drawFails g0.next g0.nextToSkip g0.period s')
+    fin { st with s := s', g := g } res tags (f1 ++ f2 ++ drawFails g0.next g0.nextToSkip g0.period s')
   | ["probe", l] =>
     let (s', out) := st.s.step (.probe (parseLevel l)) e
     let res := match out.res with
@@ -244,7 +259,7 @@ def step (st : St) (op impl : String) : St × StepOut :=
     let g := if resTxt.startsWith "ok" then
         match lvl with
         | .initial => g.dropSpace 0
-        | .handshake => { g.dropSpace 1 with confirmed := true }
+        | .handshake => { g.dropSpace 1 with confirmed := true, completed := true }
         | .zeroRTT =>
           -- the leading run of 0-RTT packets of the application-data space is discarded
           -- (if only 0-RTT packets were sent so far, as in a real connection, that is all of them)
